@@ -134,7 +134,12 @@ type Config struct {
 	// Kinds overrides the adapter of a chain name (default: first letter): v vote, r ripple, b bsc, y bytom, g hsc, h heco,
 	// e eth (source with a synced light client), t eth-router destination without light client.
 	Kinds map[string]string `json:"kinds,omitempty"`
+	// EventLog is the node configuration flag config.DefConfig.Common.EnableEventLog for this process (default true).
+	// The properties must hold under both values: notifications are not part of them, records and leaves are.
+	EventLog *bool `json:"eventlog,omitempty"`
 }
+
+func (cfg *Config) eventLog() bool { return cfg.EventLog == nil || *cfg.EventLog }
 
 type Universe struct {
 	cfg       Config
@@ -217,7 +222,7 @@ func (u *Universe) txHash(n uint32) []byte {
 
 func newUniverse(cfg Config, seed uint64) *Universe {
 	config.DefConfig.P2PNode.NetworkId = config.NETWORK_ID_MAIN_NET
-	config.DefConfig.Common.EnableEventLog = true
+	config.DefConfig.Common.EnableEventLog = cfg.eventLog()
 	u := &Universe{cfg: cfg, rng: vio.NewRNG(seed*7919 + 13), chains: map[string]*Chain{}, chainByID: map[uint64]string{},
 		ids: map[string][]byte{}, idByHex: map[string]string{}, msgs: map[string]*Msg{}, msgByHex: map[string]string{},
 		imports: map[string]*importIn{}, released: map[string]*Msg{}}
